@@ -365,6 +365,10 @@ _amend("C02", "text", "the word parser: Word::new returns a word or a WordSyntax
        "the word parser: Word::new returns a word or a WordSyntaxError for EVERY text")
 
 
+CLAIMED["C05"]["text"] = CLAIMED["C05"]["text"] + (" STRESS/TONE END TO END (Props/C05Stress, through the generic scan theorem C14Supra.matrix_rule_gen): a rule `X > [±stress]` or "
+       "`X > [±stress, tone:n]` / any environment returns a word in which every syllable is either exactly the syllable it was or that syllable with primary stress (+stress; "
+       "unstressed for -stress) and the named tone, segments untouched (stress_rule_restresses; the single edit applySyllMods_stressOnly holds whatever is bound).")
+
 def main():
     checks = []
     for p in ALL:
